@@ -436,7 +436,11 @@ func (r *runner) endExport(k int, res string) bool {
 	return true
 }
 
+var resMu sync.Mutex // export goroutines draw their results concurrently
+
 func (r *runner) nextResult() string {
+	resMu.Lock()
+	defer resMu.Unlock()
 	if len(r.sc.Results) == 0 {
 		return "ok"
 	}
